@@ -64,7 +64,12 @@ impl<T, A: Allocator> RawTable<T, A> {
     #[verifier::external_body]
     pub fn table_layout() -> (r: TableLayout) { unimplemented!() }
 }
-pub struct RawIter<T> { pub marker: Ghost<Option<T>> }
+pub struct RawIter<T> { pub n: usize, pub marker: Ghost<Option<T>> }
+impl<T> RawIter<T> {
+    pub open spec fn spec_len(&self) -> usize { self.n }
+    #[verifier::when_used_as_spec(spec_len)]
+    pub fn len(&self) -> (r: usize) ensures r == self.n, r == self.spec_len() { self.n }
+}
 pub struct OrigTable { pub g: Ghost<int> }
 impl OrigTable {
     // R31: `orig_table.as_ptr().copy_from_nonoverlapping(&table, 1)`: the drained table is moved back into the map;
@@ -78,7 +83,27 @@ pub struct RawDrain<T, A> {
     pub iter: RawIter<T>,
     pub table: RawTableInner,
     pub orig_table: OrigTable,
-    pub marker: Ghost<Option<A>>,
+    pub marker: core::marker::PhantomData<A>,
+}
+pub use core::marker::PhantomData;
+impl OrigTable {
+    // R39: `NonNull::from(&mut self.table)`: where the drained table will be written back
+    #[verifier::external_body]
+    pub fn of(t: &mut RawTableInner) -> (r: OrigTable)
+        ensures *final(t) == *old(t),
+    { unimplemented!() }
+}
+impl RawTableInner {
+    // R14b: `RawTableInner::NEW`, the unallocated singleton
+    #[verifier::external_body]
+    pub fn new_singleton() -> (r: RawTableInner)
+        ensures r.bucket_mask == 0, r.items == 0, !r.life@.dropped, !r.life@.freed,
+    { unimplemented!() }
+}
+impl<T, A: Allocator> RawTable<T, A> {
+    pub open spec fn spec_len(&self) -> usize { self.table.items }
+    #[verifier::when_used_as_spec(spec_len)]
+    pub fn len(&self) -> (r: usize) ensures r == self.table.items, r == self.spec_len() { self.table.items }
 }
 impl<T, A: Allocator> RawDrain<T, A> {
     // R32: RawIter::drop_elements on the drain's iterator (contract proved in unit iter: exactly the elements not
@@ -90,5 +115,19 @@ impl<T, A: Allocator> RawDrain<T, A> {
             final(self).table.life@.dropped, final(self).table.life@.freed == old(self).table.life@.freed,
             final(self).table.life@.cleared == old(self).table.life@.cleared,
             final(self).table.items == old(self).table.items, final(self).table.bucket_mask == old(self).table.bucket_mask,
+    { unimplemented!() }
+}
+
+// std: core::mem::replace (assumed with its documented meaning)
+pub assume_specification<T>[ core::mem::replace::<T> ](dest: &mut T, src: T) -> (r: T)
+    ensures *final(dest) == src, r == *old(dest),
+;
+// `ptr::read(p)`: a bitwise copy that leaves the source as it is (not used by the unchanged text; keeps a changed
+// text that uses it inside the dialect)
+pub mod ptr {
+    use super::*;
+    #[verifier::external_body]
+    pub fn read(t: &RawTableInner) -> (r: RawTableInner)
+        ensures r == *t,
     { unimplemented!() }
 }
